@@ -8,7 +8,8 @@ LEVEL = 'exploration'
 BUDGET = {'quick': 90, 'thorough': 900}
 RULE = ('Cases = worker class x target behaviour (cooperative loop, swallows every Exception, 1000 s sleep, interpreter lock held '
         'by C code, SIGSTOPped, already finished, never run) x history of 1-4 calls from {wait(t), terminate(t, force), '
-        'is_alive(), close()} with t in {0, 0.05, 1} x clock mode x schedule.')
+        'is_alive(), close()} with t in {0, 0.05, 1} x clock mode x (remote kinds) control connection failing with ETIMEDOUT / EHOSTUNREACH / ECONNRESET '
+        'while the caller is blocked in a round trip x schedule.')
 ASSUMPTIONS = ['time bound evaluated on the simulated clock: elapsed <= 5 * sum(timeouts passed) + 2 s',
                'force=True is never used on thread kinds (it kills the calling process by design)']
 
@@ -45,7 +46,12 @@ def gen_case(ctx, rng, i, tag='random'):
             ops.append(['terminate', kw])
         else:
             ops.append([op, {}])
-    return {'kind': kind, 'behaviour': beh, 'ops': ops, 'items': rng.randrange(0, 3), 'policy': pol, 'knobs': knobs,
+    net = None
+    if lib.is_remote(kind) and beh in ('coop', 'swallow', 'sleep') and rng.random() < 0.2:
+        # the control connection fails without FIN / RST (keep-alive expiry, unreachable host) while the caller is blocked in
+        # the middle of a wait() / terminate() / is_alive() round trip
+        net = rng.choice(['ETIMEDOUT', 'EHOSTUNREACH', 'ECONNRESET'])
+    return {'kind': kind, 'behaviour': beh, 'ops': ops, 'items': rng.randrange(0, 3), 'policy': pol, 'knobs': knobs, 'net_fault': net,
             'settle': rng.choice([0.05, 0.1, 0.11, 0.12, 0.15, 0.3]),
             'sched_seed': ctx.case_seed(tag, i)}
 
@@ -97,6 +103,21 @@ class Run:
         elif beh not in ('notrun',):
             s.sleep(0.3)       # let the target get going (enter its loop / sleep / C call)
         self.info['dead_before'] = beh in ('finished', 'notrun')
+        if c.get('net_fault'):
+            import errno
+            st_ = {'armed': True}
+
+            def hook(sim, t, what):
+                if st_['armed'] and str(what).startswith('recv:') and str(t.role).startswith('call_with_deadline'):
+                    st_['armed'] = False
+                    e = getattr(errno, c['net_fault'])
+
+                    def fire():
+                        n = lib.break_connections(w, e, which=('_ctrl_sock',))
+                        self.info['net_fault_fired'] = [n, len(self.hist)]
+                        sim.tlog('net-fault')
+                    sim.add_timer(sim.now + 0.002, fire)
+            s.block_hooks.append(hook)
         for op, kw in c['ops']:
             tsum = kw.get('timeout', 0)
             bound = 5 * tsum + 2.0
@@ -143,6 +164,12 @@ class Run:
                 break
             if h['status'] == 'exc':
                 V.append({'clause': 'returns-normally', 'manifestation': f'{op}-raises:{h["value"]}:{beh}', 'detail': h})
+                continue
+            partitioned = bool(self.info.get('net_fault_fired')) and self.info['net_fault_fired'][0] and i >= self.info['net_fault_fired'][1]
+            if partitioned:
+                # the parent cannot know the state of a child it cannot reach: only "returns normally, in time" is checked
+                if op in ('wait', 'terminate') and h['elapsed'] > h['bound'] and not h['adversarial']:
+                    V.append({'clause': 'bounded', 'manifestation': f'{op}-slow:{beh}:after-net-fault', 'detail': h})
                 continue
             if op in ('wait', 'terminate'):
                 if h['elapsed'] > h['bound'] and not h['adversarial']:
